@@ -137,18 +137,35 @@ Lemma conj_zero_trace d2 nv (V : mat) : mtrace d2 (conjugate nv (fun _ _ => 0) V
 Proof. unfold mtrace, C19_ErrFormulas.conjugate, mmul. apply sumn_zero'. intros i _.
   apply sumn_zero'. intros l _. rewrite (sumn_zero' nv) by (intros; ring). ring. Qed.
 
-(* the value computed by calc_mse_linear_analytical is the exact object MSE for QST, POVMT, QPT in every
-   parametrisation and for QMPT without the equality constraint; in var mode it is mse_var for all four *)
+(* the value computed by calc_mse_linear_analytical (repaired code) is the exact object MSE for all four tomography types in
+   every parametrisation; in var mode it is mse_var for all four *)
 Theorem mse_analytical_is_object_exact ty on_eq d2 mo nv nr (L Sg : mat) :
-  (ty = QMPT -> on_eq = false) ->
-  mse_linear_analytical F ty true on_eq d2 nv nr L Sg
+  mse_linear_analytical F ty true on_eq d2 mo nv nr L Sg
   = mse_object_exact F d2 nv nr (implied_S F ty on_eq d2 mo) L Sg.
-Proof. intros Hq. unfold C19_ErrFormulas.mse_linear_analytical, C19_ErrFormulas.mse_object_exact, C19_ErrFormulas.implied_S.
-  destruct ty, on_eq; cbn [andb]; try reflexivity; try (rewrite conj_zero_trace; ring).
-  discriminate (Hq eq_refl). Qed.
-Theorem mse_analytical_var_mode ty on_eq d2 nv nr (L Sg : mat) :
-  mse_linear_analytical F ty false on_eq d2 nv nr L Sg = mse_var F nv nr L Sg.
+Proof. unfold C19_ErrFormulas.mse_linear_analytical, C19_ErrFormulas.mse_analytical_of_cov, C19_ErrFormulas.mse_object_exact,
+    C19_ErrFormulas.implied_S, C19_ErrFormulas.mse_var.
+  destruct ty, on_eq; cbn [andb]; try reflexivity; rewrite conj_zero_trace; ring. Qed.
+Theorem mse_analytical_var_mode ty on_eq d2 mo nv nr (L Sg : mat) :
+  mse_linear_analytical F ty false on_eq d2 mo nv nr L Sg = mse_var F nv nr L Sg.
 Proof. destruct ty; reflexivity. Qed.
+(* the analytical value only depends on the entries of V inside nv x nv (used to justify the frozen evaluation in Exec) *)
+Lemma conjugate_ext r c (X X' V V' : mat) : meq r c X X' -> meq c c V V' -> meq r r (conjugate c X V) (conjugate c X' V').
+Proof. intros HX HV. unfold C19_ErrFormulas.conjugate. apply (mmul_ext c _ _ _ _ r r).
+  - now apply (mmul_ext c _ _ _ _ r c).
+  - intros i j Hi Hj. unfold mT. now apply HX. Qed.
+Lemma mse_analytical_of_cov_ext ty mode on_eq d2 mo nv (V V' : mat) : meq nv nv V V' ->
+  mse_analytical_of_cov F ty mode on_eq d2 mo nv V = mse_analytical_of_cov F ty mode on_eq d2 mo nv V'.
+Proof. intros H. unfold C19_ErrFormulas.mse_analytical_of_cov.
+  rewrite (mtrace_ext nv V V' H).
+  rewrite (mtrace_ext d2 _ _ (conjugate_ext d2 nv (matS F d2) (matS F d2) V V' (meq_refl _ _ _) H)).
+  rewrite (mtrace_ext d2 _ _ (conjugate_ext d2 nv (matS_mp F d2 mo) (matS_mp F d2 mo) V V' (meq_refl _ _ _) H)).
+  reflexivity. Qed.
+(* the code as it was before fix qmpt-mse-linear-analytical-qoperation agrees with the repaired code everywhere except
+   QMPT / qoperation mode / equality constraint *)
+Theorem mse_analytical_before_fix_agrees ty mode on_eq d2 mo nv nr (L Sg : mat) :
+  (ty = QMPT -> mode = true -> on_eq = true -> False) ->
+  mse_linear_analytical_before_fix F ty mode on_eq d2 nv nr L Sg = mse_linear_analytical F ty mode on_eq d2 mo nv nr L Sg.
+Proof. intros H. destruct ty; try reflexivity. destruct mode, on_eq; try reflexivity. destruct (H eq_refl eq_refl eq_refl). Qed.
 
 (* ---------- MSE of the empirical distributions ---------- *)
 Lemma trace_cov_mat m n p : sumn m p = 1 -> mtrace m (cov_mat n p) = (1 - dot m p p) / n.
@@ -157,11 +174,13 @@ Proof. intros Hp. unfold mtrace, C19_ErrFormulas.cov_mat, dot.
   2:{ intros i _. rewrite Nat.eqb_refl, div_def. reflexivity. }
   rewrite sumn_scale_r, sumn_sub, Hp, div_def. reflexivity. Qed.
 
-Theorem mse_empi_closed_eq eps nv J m A b v ns :
-  (forall j, (j < J)%nat -> sumn m (prob_dists F eps nv m A b v j) = 1) ->
-  mse_empi F eps nv J m A b v ns = mse_empi_closed F eps nv J m A b v ns.
-Proof. intros H. unfold C19_ErrFormulas.mse_empi, C19_ErrFormulas.mse_empi_closed. apply sumn_ext; intros j Hj.
-  now apply trace_cov_mat, H. Qed.
+Theorem mse_empi_closed_eq eps nv ms A b v ns :
+  Forall (fun mp : nat * vec => sumn (fst mp) (snd mp) = 1) (tomo_pds F eps nv ms A b v) ->
+  mse_empi F eps nv ms A b v ns = mse_empi_closed F eps nv ms A b v ns.
+Proof. unfold C19_ErrFormulas.mse_empi, C19_ErrFormulas.mse_empi_closed.
+  generalize (tomo_pds F eps nv ms A b v) as pds. generalize O as j. intros j pds. revert j.
+  induction pds as [|[m p] t IH]; intros j H; cbn [C19_ErrFormulas.mse_empi_pds C19_ErrFormulas.mse_empi_closed_pds]; [reflexivity|].
+  inversion H as [|? ? Hp Ht]; subst. cbn [fst snd] in Hp. rewrite (trace_cov_mat m (ns j) p Hp). f_equal. now apply IH. Qed.
 
 Lemma mtrace_dsum bs : mtrace (dsum_size bs) (dsum bs) = fold_right (fun b acc => mtrace (fst b) (snd b) + acc) 0 bs.
 Proof. induction bs as [|[s M] t IH]; cbn [C19_ErrFormulas.dsum_size C19_ErrFormulas.dsum fold_right fst snd]. { reflexivity. }
@@ -246,6 +265,26 @@ Theorem mu_fisher_ok eps m p G :
   mu_fisher F eps m m p G = MOk (fisher_core F m (replace_prob_dist F eps m p) G).
 Proof. intros Hv He. unfold C19_ErrFormulas.mu_fisher. rewrite Hv, Nat.eqb_refl, He. reflexivity. Qed.
 
+(* matrix_util.calc_fisher_matrix_total (repaired code) returns  sum_j w_j F_j  (nv x nv) on valid input *)
+Lemma collect_map_ok {A B} (f : A -> mres B) (g : A -> B) l :
+  (forall a, In a l -> f a = MOk (g a)) -> collect (map f l) = MOk (map g l).
+Proof. induction l as [|a l IH]; intros H; cbn [map C19_ErrFormulas.collect]; [reflexivity|].
+  rewrite (H a (or_introl eq_refl)), IH; [reflexivity|]. intros x Hx. apply H. now right. Qed.
+Definition item_ok (eps : F) (m : nat) (it : F * vec * mat) : Prop :=
+  let '(w, p, _) := it in 0 <= w /\ validate F eps true (map p (seq 0 m)) = MOk tt.
+Theorem mu_fisher_total_ok eps m nv items :
+  Forall (item_ok eps m) items -> kleb F eps 0 = false ->
+  exists M, mu_fisher_total F eps m nv items = MOk (nv, M) /\ forall a b, M a b = fisher_total_def F eps m items a b.
+Proof. intros Hv He. unfold C19_ErrFormulas.mu_fisher_total.
+  assert (Hw : existsb (fun it : F * vec * mat => let '(w, _, _) := it in flt F w 0) items = false).
+  { induction Hv as [|[[w p] G] t [H0 _] _ IH]; cbn [existsb]; [reflexivity|]. rewrite IH.
+    unfold C19_ErrFormulas.flt. rewrite (proj2 (k_leb F 0 w) H0). reflexivity. }
+  rewrite Hw.
+  rewrite (collect_map_ok _ (fun it : F * vec * mat => let '(_, p, G) := it in fisher_core F m (replace_prob_dist F eps m p) G)).
+  2:{ intros [[w p] G] Hin. rewrite Forall_forall in Hv. destruct (Hv _ Hin) as [_ Hp]. now apply mu_fisher_ok. }
+  eexists. split; [reflexivity|]. intros a b. unfold C19_ErrFormulas.fisher_total_def.
+  clear. induction items as [|[[w p] G] t IH]; cbn [map combine C19_ErrFormulas.wsum_mats]; [reflexivity|]. now rewrite IH. Qed.
+
 (* Fisher information of n independent draws is n times the single-draw matrix *)
 Fixpoint score_sum (p : vec) (G : mat) (a : nat) (s : list nat) : F :=
   match s with [] => 0 | z :: t => score p G a z + score_sum p G a t end.
@@ -283,6 +322,20 @@ Theorem cr_var_unique n N (Fm M M' : mat) :
   meq n n (mmul n Fm M) mid -> meq n n (mmul n M' Fm) mid -> cr_var F n N M' = cr_var F n N M.
 Proof. intros H1 H2. unfold C19_ErrFormulas.cr_var. f_equal. apply mtrace_ext. now apply (inverse_unique n Fm). Qed.
 
+(* textbook form: with the weights n_j / N the code inverts  F_w = sum_j (n_j / N) F_j  and divides the trace by N; that is the
+   trace of the inverse of the total Fisher information  sum_j n_j F_j  of the whole experiment *)
+Lemma wsum_weights_scale N (ns : nat -> F) js (Fs : list mat) a b : N <> 0 ->
+  N * wsum_mats F (combine (map (cr_weights F N ns) js) Fs) a b = wsum_mats F (combine (map ns js) Fs) a b.
+Proof. intros HN. revert Fs. induction js as [|j t IH]; intros Fs; cbn [map combine C19_ErrFormulas.wsum_mats]; [ring|].
+  destruct Fs as [|M Fs]; cbn [combine C19_ErrFormulas.wsum_mats]; [ring|]. rewrite <- IH.
+  unfold C19_ErrFormulas.cr_weights. field. exact HN. Qed.
+Theorem cr_bound_textbook n N (Fw M : mat) : N <> 0 -> meq n n (mmul n Fw M) mid ->
+  meq n n (mmul n (mscale N Fw) (mscale (kinv F N) M)) mid /\ cr_var F n N M = mtrace n (mscale (kinv F N) M).
+Proof. intros HN H. split.
+  - intros i j Hi Hj. rewrite mmul_mscale_l. unfold mscale at 1. rewrite mmul_mscale_r. unfold mscale.
+    rewrite (H i j Hi Hj). field. exact HN.
+  - unfold C19_ErrFormulas.cr_var, mtrace, mscale. rewrite sumn_scale_l, div_def. ring. Qed.
+
 (* ---------- calc_left_inv: certificate => normal equations (the estimate is the least-squares solution) ---------- *)
 Theorem left_inv_normal_eq nv nr (A L : mat) :
   meq nv nv (mmul nr L A) mid ->
@@ -301,80 +354,194 @@ Proof. intros HLA Hsym i j Hi Hj.
   now apply mmul_id_l. Qed.
 
 (* ---------- tomography level: what the StandardQTomography methods compute is the exact expectation ---------- *)
-Lemma p_total_uniform m (P : nat -> vec) (n : nat -> nat) J : (0 < m)%nat -> forall s i, (i < J * m)%nat ->
-  p_total (map (fun j => (m, P j, n j)) (seq s J)) i = P (s + i / m)%nat (i mod m).
-Proof. intros Hm. induction J as [|J IH]; intros s i Hi; [lia|]. cbn [seq map C19_Expect.p_total].
+(* schedules with arbitrary (possibly different) numbers of outcomes ms; pieces of the stacked vector start at offset off *)
+Fixpoint pieces_ok_rec (eps : F) (raw : vec) (off : nat) (ms : list nat) : Prop :=
+  match ms with [] => True | m :: t => piece_ok F eps raw off m /\ pieces_ok_rec eps raw (off + m)%nat t end.
+Lemma pieces_ok_rec_of eps raw ms : forall off,
+  (forall j, (j < length ms)%nat -> piece_ok F eps raw (off + sizes_sum (firstn j ms))%nat (nth j ms O)) -> pieces_ok_rec eps raw off ms.
+Proof. induction ms as [|m t IH]; intros off H; cbn [pieces_ok_rec]; [exact I|]. split.
+  - assert (H0 := H O ltac:(cbn; lia)). cbn [firstn C19_ErrFormulas.sizes_sum nth] in H0. now rewrite Nat.add_0_r in H0.
+  - apply IH. intros j Hj. assert (H1 := H (S j) ltac:(cbn; lia)). cbn [firstn C19_ErrFormulas.sizes_sum nth] in H1.
+    now rewrite Nat.add_assoc in H1. Qed.
+Lemma pds_row eps raw off m x : piece_ok F eps raw off m -> (x < m)%nat ->
+  trunc_norm_row F eps m (fun x0 => raw (off + x0)%nat) x = raw (off + x)%nat.
+Proof. intros [Hs He] Hx. exact (trunc_norm_id eps m (fun x0 => raw (off + x0)%nat) x He Hs Hx). Qed.
+Lemma scheds_valid eps raw n ms : forall off j, pieces_ok_rec eps raw off ms ->
+  (forall k, (k < length ms)%nat -> (1 <= n (j + k)%nat)%nat) ->
+  Forall (valid_sched F) (scheds_of F n j (pds_of_raw F eps raw off ms)).
+Proof. induction ms as [|m t IH]; intros off j Hp Hn; cbn [C19_ErrFormulas.pds_of_raw C19_ErrFormulas.scheds_of]; constructor.
+  - destruct Hp as [Hp _]. unfold C19_Expect.valid_sched. split.
+    + rewrite <- (proj1 Hp). apply sumn_ext; intros x Hx. now apply pds_row.
+    + assert (H0 := Hn O ltac:(cbn; lia)). now rewrite Nat.add_0_r in H0.
+  - apply IH; [apply Hp|]. intros k Hk. assert (H1 := Hn (S k) ltac:(cbn; lia)). now rewrite Nat.add_succ_r in H1. Qed.
+Lemma scheds_size eps raw n ms : forall off j, total_size (scheds_of F n j (pds_of_raw F eps raw off ms)) = sizes_sum ms.
+Proof. induction ms as [|m t IH]; intros off j; cbn [C19_ErrFormulas.pds_of_raw C19_ErrFormulas.scheds_of C19_Expect.total_size C19_ErrFormulas.sizes_sum];
+  [reflexivity|]. now rewrite IH. Qed.
+Lemma scheds_p eps raw n ms : forall off j, pieces_ok_rec eps raw off ms -> forall i, (i < sizes_sum ms)%nat ->
+  p_total (scheds_of F n j (pds_of_raw F eps raw off ms)) i = raw (off + i)%nat.
+Proof. induction ms as [|m t IH]; intros off j Hp i Hi;
+    cbn [C19_ErrFormulas.pds_of_raw C19_ErrFormulas.scheds_of C19_Expect.p_total C19_ErrFormulas.sizes_sum pieces_ok_rec] in *; [lia|].
   destruct (Nat.ltb_spec i m) as [Hlt|Hge].
-  - rewrite Nat.div_small, Nat.mod_small by exact Hlt. now rewrite Nat.add_0_r.
-  - rewrite IH by (cbn in Hi; lia).
-    replace i with ((i - m) + 1 * m)%nat at 3 4 by lia.
-    rewrite Nat.div_add, Nat.mod_add by lia. f_equal. lia. Qed.
-Lemma total_size_uniform m (P : nat -> vec) (n : nat -> nat) J s :
-  total_size (map (fun j => (m, P j, n j)) (seq s J)) = (J * m)%nat.
-Proof. revert s. induction J as [|J IH]; intros s; cbn [seq map C19_Expect.total_size]; [reflexivity|]. rewrite IH. lia. Qed.
+  - apply pds_row; [apply Hp|exact Hlt].
+  - rewrite IH by (try apply Hp; lia). f_equal. lia. Qed.
+Lemma cov_blocks_scheds n j pds :
+  dsum (cov_blocks F (fun j0 => of_nat (n j0)) j pds) = cov_of_scheds (scheds_of F n j pds).
+Proof. unfold cov_of_scheds, C19_ErrFormulas.cov_total. f_equal. revert j.
+  induction pds as [|[m p] t IH]; intros j; cbn [C19_ErrFormulas.cov_blocks C19_ErrFormulas.scheds_of map]; [reflexivity|]. now rewrite IH. Qed.
+Lemma mse_empi_pds_scheds n pds : forall j, Forall (valid_sched F) (scheds_of F n j pds) ->
+  mse_empi_pds F (fun j0 => of_nat (n j0)) j pds = mse_empi_scheds (scheds_of F n j pds).
+Proof. induction pds as [|[m p] t IH]; intros j H; cbn [C19_ErrFormulas.mse_empi_pds C19_ErrFormulas.scheds_of mse_empi_scheds]; [reflexivity|].
+  cbn [C19_ErrFormulas.scheds_of] in H. inversion H as [|? ? Hv Ht]; subst. destruct Hv as [Hp _]. rewrite (trace_cov_mat m _ p Hp). f_equal. now apply IH. Qed.
 
 Section Tomo.
-Variables (eps : F) (nv J m : nat) (A L : mat) (b v : vec) (n : nat -> nat).
+Variables (eps : F) (nv : nat) (ms : list nat) (A L : mat) (b v : vec) (n : nat -> nat).
 Notation raw := (affine F nv A b v).
-Hypothesis Hm : (0 < m)%nat.
-Hypothesis Hrow : forall j, (j < J)%nat -> sumn m (fun x => raw (j * m + x)%nat) = 1.
-Hypothesis Hent : forall j x, (j < J)%nat -> (x < m)%nat -> raw (j * m + x)%nat = 0 \/ eps <= raw (j * m + x)%nat.
-Hypothesis Hn : forall j, (j < J)%nat -> (1 <= n j)%nat.
-Hypothesis HLA : meq nv nv (mmul (J * m) L A) mid.
+Notation nr := (sizes_sum ms).
+Hypothesis Hpieces : pieces_ok F eps raw ms.
+Hypothesis Hn : forall j, (j < length ms)%nat -> (1 <= n j)%nat.
+Hypothesis HLA : meq nv nv (mmul nr L A) mid.
+Notation tomo_scheds := (tomo_scheds F eps nv ms A b v n).
 
-Definition tomo_scheds : list (sched F) := map (fun j => (m, prob_dists F eps nv m A b v j, n j)) (seq 0 J).
-
-Lemma prob_dists_raw j x : (j < J)%nat -> (x < m)%nat -> prob_dists F eps nv m A b v j x = raw (j * m + x)%nat.
-Proof. intros Hj Hx. unfold C19_ErrFormulas.prob_dists.
-  apply (trunc_norm_id eps m (fun x0 => raw (j * m + x0)%nat) x); [intros y Hy; now apply Hent|now apply Hrow|exact Hx]. Qed.
+Lemma pieces_rec : pieces_ok_rec eps raw O ms.
+Proof. apply pieces_ok_rec_of. intros j Hj. cbn [Nat.add]. now apply Hpieces. Qed.
 Lemma tomo_scheds_valid : Forall (valid_sched F) tomo_scheds.
-Proof. unfold tomo_scheds. apply Forall_forall. intros s Hs. apply in_map_iff in Hs as [j [<- Hj]].
-  apply in_seq in Hj. split; [|apply Hn; lia].
-  rewrite <- (Hrow j) by lia. apply sumn_ext; intros x Hx. apply prob_dists_raw; [lia|exact Hx]. Qed.
-Lemma tomo_scheds_size : total_size tomo_scheds = (J * m)%nat.
-Proof. apply total_size_uniform. Qed.
-Lemma tomo_scheds_p : veq (J * m) (p_total tomo_scheds) raw.
-Proof. intros i Hi. unfold tomo_scheds. rewrite p_total_uniform by assumption. cbn [Nat.add].
-  assert (Hq : (i / m < J)%nat) by (apply Nat.div_lt_upper_bound; lia).
-  rewrite prob_dists_raw by (try exact Hq; apply Nat.mod_upper_bound; lia).
-  f_equal. rewrite (Nat.div_mod_eq i m) at 3. lia. Qed.
+Proof. unfold C19_ErrFormulas.tomo_scheds, C19_ErrFormulas.tomo_pds. apply scheds_valid; [exact pieces_rec|]. intros k Hk. cbn [Nat.add]. now apply Hn. Qed.
+Lemma tomo_scheds_size : total_size tomo_scheds = nr.
+Proof. apply scheds_size. Qed.
+Lemma tomo_scheds_p : veq nr (p_total tomo_scheds) raw.
+Proof. intros i Hi. unfold C19_ErrFormulas.tomo_scheds, C19_ErrFormulas.tomo_pds. rewrite (scheds_p eps raw n ms O O pieces_rec i Hi). reflexivity. Qed.
 Lemma tomo_cov_total_eq :
-  tomo_cov_total F eps nv J m A b v (fun j => of_nat (n j)) = cov_of_scheds tomo_scheds.
-Proof. unfold C19_ErrFormulas.tomo_cov_total, cov_of_scheds, C19_ErrFormulas.cov_total, tomo_scheds.
-  rewrite !map_map. reflexivity. Qed.
+  tomo_cov_total F eps nv ms A b v (fun j => of_nat (n j)) = cov_of_scheds tomo_scheds.
+Proof. apply cov_blocks_scheds. Qed.
+(* the truncate-and-normalise step is the identity under the hypotheses: calc_prob_dists returns the Born probabilities *)
+Lemma tomo_pds_sum1 : Forall (fun mp : nat * vec => sumn (fst mp) (snd mp) = 1) (tomo_pds F eps nv ms A b v).
+Proof. assert (H := tomo_scheds_valid). unfold C19_ErrFormulas.tomo_scheds in H. revert H.
+  generalize (tomo_pds F eps nv ms A b v) as pds. generalize O as j. intros j pds. revert j.
+  induction pds as [|[m p] t IH]; intros j H; constructor.
+  - cbn [C19_ErrFormulas.scheds_of] in H. inversion H as [|? ? Hv _]; subst. destruct Hv as [Hp _]. exact Hp.
+  - cbn [C19_ErrFormulas.scheds_of] in H. inversion H; subst. eapply IH; eassumption. Qed.
 
-Notation Sigma := (tomo_cov_total F eps nv J m A b v (fun j => of_nat (n j))).
-Notation estL := (est (J * m)%nat L b tomo_scheds).
+Notation Sigma := (tomo_cov_total F eps nv ms A b v (fun j => of_nat (n j))).
+Notation estL := (est nr L b tomo_scheds).
 
 (* calc_mse_linear_analytical(mode="var") *)
-Theorem tomo_mse_var_exact ty on_eq d2 :
-  mse_linear_analytical F ty false on_eq d2 nv (J * m)%nat L Sigma
+Theorem tomo_mse_var_exact ty on_eq d2 mo :
+  mse_linear_analytical F ty false on_eq d2 mo nv nr L Sigma
   = expectL tomo_scheds (fun obs => sqdist F nv (estL obs) v).
 Proof. rewrite mse_analytical_var_mode, tomo_cov_total_eq. symmetry.
-  apply (mse_var_exact nv (J * m)%nat A L b v tomo_scheds tomo_scheds_valid HLA tomo_scheds_p). Qed.
-(* calc_mse_linear_analytical(mode="qoperation"), every case except QMPT with the equality constraint *)
-Theorem tomo_mse_qoperation_exact ty on_eq d2 mo : (ty = QMPT -> on_eq = false) ->
-  mse_linear_analytical F ty true on_eq d2 nv (J * m)%nat L Sigma
+  apply (mse_var_exact nv nr A L b v tomo_scheds tomo_scheds_valid HLA tomo_scheds_p). Qed.
+(* calc_mse_linear_analytical(mode="qoperation"): all four tomography types, both parametrisations *)
+Theorem tomo_mse_qoperation_exact ty on_eq d2 mo :
+  mse_linear_analytical F ty true on_eq d2 mo nv nr L Sigma
   = expectL tomo_scheds (fun obs => object_sqerr F d2 nv (implied_S F ty on_eq d2 mo) (vsub (estL obs) v)).
-Proof. intros Hq. rewrite (mse_analytical_is_object_exact ty on_eq d2 mo) by exact Hq. rewrite tomo_cov_total_eq. symmetry.
-  apply (mse_object_exact_thm nv (J * m)%nat A L b v tomo_scheds tomo_scheds_valid HLA tomo_scheds_p). Qed.
+Proof. rewrite (mse_analytical_is_object_exact ty on_eq d2 mo). rewrite tomo_cov_total_eq. symmetry.
+  apply (mse_object_exact_thm nv nr A L b v tomo_scheds tomo_scheds_valid HLA tomo_scheds_p). Qed.
+(* calc_covariance_mat_total is the exact covariance of the stacked empirical distributions *)
+Theorem tomo_cov_total_exact i j :
+  expectL tomo_scheds (fun obs => dev_total tomo_scheds obs i * dev_total tomo_scheds obs j) = Sigma i j.
+Proof. rewrite tomo_cov_total_eq. apply cov_total_exact. exact tomo_scheds_valid. Qed.
 (* calc_mse_empi_dists_analytical *)
 Theorem tomo_mse_empi_exact :
-  mse_empi F eps nv J m A b v (fun j => of_nat (n j))
-  = expectL tomo_scheds (fun obs => dot (J * m)%nat (dev_total tomo_scheds obs) (dev_total tomo_scheds obs)).
+  mse_empi F eps nv ms A b v (fun j => of_nat (n j))
+  = expectL tomo_scheds (fun obs => dot nr (dev_total tomo_scheds obs) (dev_total tomo_scheds obs)).
 Proof. rewrite <- tomo_scheds_size, (mse_empi_exact tomo_scheds tomo_scheds_valid).
-  unfold C19_ErrFormulas.mse_empi, tomo_scheds.
-  assert (G : forall s, (forall j, In j (seq s J) -> (j < J)%nat) ->
-     sumn J (fun j => mtrace m (cov_mat (of_nat (n (s + j))) (prob_dists F eps nv m A b v (s + j))))
-     = mse_empi_scheds (map (fun j => (m, prob_dists F eps nv m A b v j, n j)) (seq s J))).
-  2:{ rewrite <- (G O); [reflexivity|]. intros j Hj. apply in_seq in Hj. lia. }
-  clear HLA. generalize J at 1 3 4 as K. induction K as [|K IH]; intros s Hs; cbn [seq map mse_empi_scheds]. { reflexivity. }
-  rewrite sumn_S_first, Nat.add_0_r. f_equal.
-  - apply trace_cov_mat. assert (Hj : (s < J)%nat) by (apply Hs; now left).
-    rewrite <- (Hrow s Hj). apply sumn_ext; intros x Hx. now apply prob_dists_raw.
-  - rewrite <- IH by (intros j Hj; apply Hs; now right).
-    apply sumn_ext; intros j _. now rewrite Nat.add_succ_comm. Qed.
+  unfold C19_ErrFormulas.mse_empi. apply mse_empi_pds_scheds. exact tomo_scheds_valid. Qed.
+Theorem tomo_mse_empi_closed ns :
+  mse_empi F eps nv ms A b v ns = mse_empi_closed F eps nv ms A b v ns.
+Proof. apply mse_empi_closed_eq. exact tomo_pds_sum1. Qed.
 End Tomo.
+
+(* ---------- extensionality: the tomography-level functions only look at their arguments inside the stated sizes ----------
+   (used in Exec/C19_ops.v to show that evaluating them on materialised ("frozen") vectors and matrices gives the same value) *)
+Lemma trunc_norm_row_ext eps m (row row' : vec) x : veq m row row' -> (x < m)%nat ->
+  trunc_norm_row F eps m row x = trunc_norm_row F eps m row' x.
+Proof. intros H Hx. unfold C19_ErrFormulas.trunc_norm_row. rewrite (H x Hx). f_equal.
+  apply sumn_ext; intros y Hy. now rewrite (H y Hy). Qed.
+Definition pds_eq (a b : list (nat * vec)) : Prop :=
+  Forall2 (fun x y : nat * vec => fst x = fst y /\ veq (fst x) (snd x) (snd y)) a b.
+Lemma pds_of_raw_ext eps (raw raw' : vec) ms : forall off, (forall i, (i < sizes_sum ms)%nat -> raw (off + i)%nat = raw' (off + i)%nat) ->
+  pds_eq (pds_of_raw F eps raw off ms) (pds_of_raw F eps raw' off ms).
+Proof. induction ms as [|m t IH]; intros off H; cbn [C19_ErrFormulas.pds_of_raw]; constructor.
+  - cbn [fst snd]. split; [reflexivity|]. intros x Hx. apply trunc_norm_row_ext; [|exact Hx].
+    intros y Hy. apply H. cbn [C19_ErrFormulas.sizes_sum]. lia.
+  - apply IH. intros i Hi. rewrite <- !Nat.add_assoc. apply H. cbn [C19_ErrFormulas.sizes_sum]. lia. Qed.
+Lemma cov_mat_ext n m (q q' : vec) : veq m q q' -> meq m m (cov_mat n q) (cov_mat n q').
+Proof. intros H i j Hi Hj. unfold C19_ErrFormulas.cov_mat. now rewrite (H i Hi), (H j Hj). Qed.
+Definition blocks_eq (a b : list (nat * mat)) : Prop :=
+  Forall2 (fun x y : nat * mat => fst x = fst y /\ meq (fst x) (fst x) (snd x) (snd y)) a b.
+Lemma cov_blocks_ext ns pds pds' : pds_eq pds pds' -> forall j, blocks_eq (cov_blocks F ns j pds) (cov_blocks F ns j pds').
+Proof. induction 1 as [|[m p] [m' p'] t t' [Hm Hp] _ IH]; intros j; cbn [C19_ErrFormulas.cov_blocks]; constructor.
+  - cbn [fst snd] in *. subst m'. split; [reflexivity|]. now apply cov_mat_ext.
+  - apply IH. Qed.
+Lemma dsum_ext bs bs' : blocks_eq bs bs' -> forall i j, dsum bs i j = dsum bs' i j.
+Proof. induction 1 as [|[s M] [s' M'] t t' [Hs HM] _ IH]; intros i j; cbn [C19_ErrFormulas.dsum]; [reflexivity|].
+  cbn [fst snd] in *. subst s'. destruct (Nat.ltb_spec i s) as [Hi|Hi]; destruct (Nat.ltb_spec j s) as [Hj|Hj]; try reflexivity.
+  - now apply HM.
+  - apply IH. Qed.
+Lemma mse_empi_pds_ext ns pds pds' : pds_eq pds pds' -> forall j, mse_empi_pds F ns j pds = mse_empi_pds F ns j pds'.
+Proof. induction 1 as [|[m p] [m' p'] t t' [Hm Hp] _ IH]; intros j; cbn [C19_ErrFormulas.mse_empi_pds]; [reflexivity|].
+  cbn [fst snd] in *. subst m'. rewrite (IH (S j)). f_equal. apply mtrace_ext. now apply cov_mat_ext. Qed.
+Lemma mse_empi_closed_pds_ext ns pds pds' : pds_eq pds pds' -> forall j, mse_empi_closed_pds F ns j pds = mse_empi_closed_pds F ns j pds'.
+Proof. induction 1 as [|[m p] [m' p'] t t' [Hm Hp] _ IH]; intros j; cbn [C19_ErrFormulas.mse_empi_closed_pds]; [reflexivity|].
+  cbn [fst snd] in *. subst m'. rewrite (IH (S j)). f_equal. f_equal. f_equal. unfold dot. apply sumn_ext; intros x Hx. now rewrite (Hp x Hx). Qed.
+Lemma pds_eq_trans a b c : pds_eq a b -> pds_eq b c -> pds_eq a c.
+Proof. intros H. revert c. induction H as [|x y t t' [H1 H2] _ IH]; intros c Hc; inversion Hc as [|? z ? t'' [H3 H4] Ht]; subst; constructor.
+  - split; [congruence|]. intros i Hi. rewrite (H2 i Hi). apply H4. now rewrite <- H1.
+  - now apply IH. Qed.
+(* Fisher matrices: same result (same error code / pointwise equal matrices) for stacked vectors that agree on the rows *)
+Definition mres_mat_eq (r r' : mres mat) : Prop :=
+  match r, r' with MOk M, MOk M' => forall a b, M a b = M' a b | MErr c, MErr c' => c = c' | _, _ => False end.
+Lemma replace_prob_dist_ext eps m (p p' : vec) x : veq m p p' -> (x < m)%nat ->
+  replace_prob_dist F eps m p x = replace_prob_dist F eps m p' x.
+Proof. intros H Hx. unfold C19_ErrFormulas.replace_prob_dist, C19_ErrFormulas.count_lt.
+  rewrite (filter_ext_in (fun x0 => flt F (p x0) eps) (fun x0 => flt F (p' x0) eps) (seq 0 m)).
+  2:{ intros y Hy. apply in_seq in Hy. rewrite (H y) by lia. reflexivity. }
+  now rewrite (H x Hx). Qed.
+Lemma mu_fisher_ext eps m g (p p' : vec) G : veq m p p' -> mres_mat_eq (mu_fisher F eps m g p G) (mu_fisher F eps m g p' G).
+Proof. intros H. unfold C19_ErrFormulas.mu_fisher.
+  rewrite (map_ext_in p p' (seq 0 m)) by (intros y Hy; apply in_seq in Hy; apply H; lia).
+  destruct (validate F eps true (map p' (seq 0 m))) as [u|c]; [|reflexivity].
+  destruct (negb (Nat.eqb m g)); [reflexivity|]. destruct (kleb F eps 0); [reflexivity|].
+  intros a b. unfold C19_ErrFormulas.fisher_core. apply sumn_ext; intros x Hx. now rewrite (replace_prob_dist_ext eps m p p' x H Hx). Qed.
+Lemma piece_in_range ms : forall j, (j < length ms)%nat -> (sizes_sum (firstn j ms) + nth j ms O <= sizes_sum ms)%nat.
+Proof. induction ms as [|m t IH]; intros j Hj; cbn [length] in Hj; [lia|].
+  destruct j as [|j]; cbn [firstn nth C19_ErrFormulas.sizes_sum]; [lia|]. specialize (IH j ltac:(lia)). lia. Qed.
+Lemma fisher_of_raw_ext eps8 (raw raw' : vec) A ms j : (j < length ms)%nat -> veq (sizes_sum ms) raw raw' ->
+  mres_mat_eq (fisher_of_raw F eps8 raw A ms j) (fisher_of_raw F eps8 raw' A ms j).
+Proof. intros Hj H. unfold C19_ErrFormulas.fisher_of_raw. apply mu_fisher_ext. intros x Hx. apply H.
+  pose proof (piece_in_range ms j Hj). lia. Qed.
+Lemma collect_ext (l l' : list (mres mat)) : Forall2 mres_mat_eq l l' ->
+  match collect l, collect l' with
+  | MOk Fs, MOk Fs' => Forall2 (fun M M' : mat => forall a b, M a b = M' a b) Fs Fs'
+  | MErr c, MErr c' => c = c'
+  | _, _ => False end.
+Proof. induction 1 as [|r r' t t' Hr _ IH]; cbn [C19_ErrFormulas.collect]; [constructor|].
+  destruct r as [M|c], r' as [M'|c']; cbn in Hr; try contradiction; [|exact Hr].
+  destruct (collect t) as [Fs|c], (collect t') as [Fs'|c']; try contradiction; [|exact IH]. constructor; assumption. Qed.
+Lemma wsum_mats_ext (ws : list F) Fs Fs' : Forall2 (fun M M' : mat => forall a b, M a b = M' a b) Fs Fs' ->
+  forall a b, wsum_mats F (combine ws Fs) a b = wsum_mats F (combine ws Fs') a b.
+Proof. intros H. revert ws. induction H as [|M M' t t' HM _ IH]; intros ws a b; destruct ws as [|w ws]; cbn [combine C19_ErrFormulas.wsum_mats]; try reflexivity.
+  now rewrite HM, IH. Qed.
+Theorem fisher_total_of_raw_ext eps8 (raw raw' : vec) A ms w : veq (sizes_sum ms) raw raw' ->
+  mres_mat_eq (fisher_total_of_raw F eps8 raw A ms w) (fisher_total_of_raw F eps8 raw' A ms w).
+Proof. intros H. unfold C19_ErrFormulas.fisher_total_of_raw.
+  assert (HF : Forall2 mres_mat_eq (map (fun j => fisher_of_raw F eps8 raw A ms j) (seq 0 (length ms)))
+                                   (map (fun j => fisher_of_raw F eps8 raw' A ms j) (seq 0 (length ms)))).
+  { assert (G : forall l, (forall j, In j l -> (j < length ms)%nat) ->
+       Forall2 mres_mat_eq (map (fun j => fisher_of_raw F eps8 raw A ms j) l) (map (fun j => fisher_of_raw F eps8 raw' A ms j) l)).
+    { induction l as [|j t IH]; intros Hl; cbn [map]; constructor.
+      - apply fisher_of_raw_ext; [apply Hl; now left|exact H].
+      - apply IH. intros k Hk. apply Hl. now right. }
+    apply G. intros j Hj. apply in_seq in Hj. lia. }
+  pose proof (collect_ext _ _ HF) as HC.
+  destruct (collect (map (fun j => fisher_of_raw F eps8 raw A ms j) (seq 0 (length ms)))) as [Fs|c],
+           (collect (map (fun j => fisher_of_raw F eps8 raw' A ms j) (seq 0 (length ms)))) as [Fs'|c']; try contradiction; [|exact HC].
+  intros a b. now apply wsum_mats_ext. Qed.
+
+Lemma mse_linear_analytical_ext ty mode on_eq d2 mo nv nr (L L' Sg Sg' : mat) : meq nv nr L L' -> meq nr nr Sg Sg' ->
+  mse_linear_analytical F ty mode on_eq d2 mo nv nr L Sg = mse_linear_analytical F ty mode on_eq d2 mo nv nr L' Sg'.
+Proof. intros HL HS. unfold C19_ErrFormulas.mse_linear_analytical, C19_ErrFormulas.cov_linear.
+  apply mse_analytical_of_cov_ext. now apply conjugate_ext. Qed.
 
 (* ---------- helpers ---------- *)
 Lemma calc_se_app n l1 l2 : calc_se F n (l1 ++ l2) = calc_se F n l1 + calc_se F n l2.
